@@ -200,6 +200,11 @@ def construct(route, cls_name, kwargs):
                     s = em.BillingModel(settings=copy.deepcopy(kwargs)).settings
                 else:
                     s = em.HourlyModel(settings=copy.deepcopy(kwargs)).settings
+            elif route == "model_features":
+                # hourly only: the dict also selects the settings class through its train_features entry
+                kw = copy.deepcopy(kwargs)
+                kw["train_features"] = ["temperature", "ghi"] if "NonSolar" not in cls_name and "Solar" in cls_name else ["temperature"]
+                s = em.HourlyModel(settings=kw).settings
         return "ok", s
     except pydantic.ValidationError as e:
         return "rej", e
@@ -341,8 +346,10 @@ def judge_invalid(c, rec):
     for devmode in (False, True):
         if devmode and path[-1] in ("developer_mode", "silent_developer_mode"):
             continue
-        for route in ("class", "model"):
+        for route in ("class", "model", "model_features"):
             if route == "model" and cls_name == "BillingSettings":
+                continue
+            if route == "model_features" and (cls_name in DAILY_CLASSES or devmode or path[0] == "train_features"):
                 continue
             kwargs = nest(path, alt)
             if devmode and cls_name in DAILY_CLASSES:
@@ -372,9 +379,11 @@ def judge_hourly(c, rec):
     """Hourly: valid alternatives accepted and recorded (dict, any spelling; model route)."""
     cls_name, path, alt = c["cls"], c["path"], c["alt"]
     for how in ("lower", "UPPER", "pad"):
-        for route in ("class", "model"):
+        for route in ("class", "model", "model_features"):
+            if route == "model_features" and (how != "lower" or path[0].strip().lower() == "train_features"):
+                continue
             kwargs = nest(spell(path, how), alt)
-            st, s = construct(route, cls_name if route == "class" else "BaseHourlySettings", kwargs)
+            st, s = construct(route, cls_name if route != "model" else "BaseHourlySettings", kwargs)
             if st != "ok":
                 rec.violation("hourly/valid-rejected/" + ".".join(path), c, "%s=%r rejected (%s, %s): %s" % (".".join(path), alt, how, route, str(s)[:120]))
             elif get_path(s, path) != alt:
@@ -513,6 +522,7 @@ def all_cases(tier):
         {"kind": "fidelity", "family": "hourly", "settings": {}},
         {"kind": "fidelity", "family": "hourly", "settings": {"seed": 7, "cvrmse_threshold": 2.0, "elasticnet": {"alpha": 0.05}}},
         {"kind": "fidelity", "family": "hourly", "settings": {"seed": 3}, "ghi": True},
+        {"kind": "fidelity", "family": "hourly", "settings": {"seed": 7, "train_features": ["temperature"], "cvrmse_threshold": 2.0, "elasticnet": {"alpha": 0.2}}},
     ]
     if tier == "thorough":
         fid += [
